@@ -286,6 +286,21 @@ def gen(tier: str, seed: int) -> list[Case]:
         files, info = c09.build_pair_package(rng, gated)
         files["src/pk/deep.py"] = deep_nesting_module(rng)
         cases.append(Case(cid=f"c02-struct-{i}", files=files, opts=["-nc"] if i % 2 else [], meta={"part": "structure", "feats": {"structure-packages": 1}}, reach=REACH))
+    # (vii) number, bool and None defaults / attribute values / Literal values over the whole range of magnitudes
+    ints = ["0", "-1", "7", "+3", "9223372036854775808", "-170141183460469231731687303715884105728", "0xff", "0o17", "0b101", "1_000_000", "10**20", "-(2**64)"]
+    floats = [f"{m}e{e}" for m in ("1", "2.5", "-1", "9.999") for e in (-320, -30, -20, -8, -5, -4, -1, 0, 1, 5, 15, 16, 17, 20, 21, 22, 30, 100, 308)] + ["0.0", "-0.0", "1.5", ".5", "5.", "1e400", "-1e400", "123456789.123456789", "0.1 + 0.2", "1_0.0_1", "1E5", "1e+5"]
+    others = ["True", "False", "None", "not True", "-True"]
+    lines = ["from typing import Literal\n\n\n"]
+    vals = ints + floats + others
+    for k in range(0, len(vals), 8):
+        chunk = vals[k : k + 8]
+        lines.append(f"def nums{k}(" + ", ".join(f"p{j}={v}" for j, v in enumerate(chunk)) + ") -> None: ...\n\n\n")
+        lines.append(f"def typed{k}(" + ", ".join(f"p{j}: float = {v}" for j, v in enumerate(chunk)) + ") -> None: ...\n\n\n")
+        lines.append(f"class Num{k}:\n" + "".join(f"    a{j} = {v}\n" for j, v in enumerate(chunk)) + f"\n    def __init__(self, {', '.join(f'q{j}={v}' for j, v in enumerate(chunk))}) -> None:\n" + "".join(f"        self.i{j} = {v}\n" for j, v in enumerate(chunk)) + "\n\n")
+    lits = ["0", "-1", "7", "9223372036854775808", "-170141183460469231731687303715884105728", "0xff", "1_000", "True", "False", "None"]
+    lines.append("def lits(" + ", ".join(f"l{j}: Literal[{v}] = {v}" for j, v in enumerate(lits)) + f", all_: Literal[{', '.join(lits)}] = 0) -> Literal[{', '.join(lits[:4])}]: ...\n")
+    for nc in (False, True):
+        cases.append(Case(cid=f"c02-numbers-{int(nc)}", files={"src/pk/__init__.py": "", "src/pk/m_num.py": "".join(lines)}, opts=["-nc"] if nc else [], meta={"part": "numbers", "feats": {"number-defaults": len(vals)}}, reach=REACH))
     # (vi) whole packages, each generated TWICE into the same output directory (the files of the second run are parsed):
     # every declaration form of C01's library, its package scenarios (names defined in another module, import forms,
     # encodings), general packages with re-exports and classes of other libraries
